@@ -7,13 +7,21 @@ LIST = 'src/containers/qlist.c'
 
 
 def _list_calls(prog, f):
-    """(method name, call) for calls through X->list->method"""
+    """(method name, call) for calls through X->list->method, in f and in the static helpers of its unit it reaches"""
     out = []
-    for x in walk(f.body):
-        if x.get('kind') == 'CallExpr':
-            c = strip(children(x)[0])
-            if c.get('kind') == 'MemberExpr' and c.get('_field') and c['_field'][0] == 'qlist_s':
-                out.append((c.get('name'), x))
+    seen, work = {f.key}, [f]
+    while work:
+        g = work.pop()
+        for x in walk(g.body):
+            if x.get('kind') == 'CallExpr':
+                c = strip(children(x)[0])
+                if c.get('kind') == 'MemberExpr' and c.get('_field') and c['_field'][0] == 'qlist_s':
+                    out.append((c.get('name'), x))
+                else:
+                    for h in prog.callees(g.unit, x):
+                        if getattr(h, 'body', None) is not None and h.static and h.unit.rel == f.unit.rel and h.key not in seen:
+                            seen.add(h.key)
+                            work.append(h)
     return out
 
 
@@ -186,12 +194,22 @@ def rule_c09(prog, rep):
             st = facts.at(n)
             for ip in ips:
                 rep.instance('E5')
-                upper = [ft for ft in st if ft[0] == ip and ft[1] == '<' and (ft[2].endswith('->num') or ft[2] in numalias)]
-                lower = any(ft[3] == 'u' for ft in upper) or any(
-                    ft[0] == ip and ((ft[1] == '>=' and ft[2] == '0') or (ft[1] == '>' and ft[2] == '-1')) for ft in st)
-                ok = bool(upper) and lower
-                rep.oblige('E5', ok, {'function': f.name, 'line': starts[0].get('_line'), 'index': ip,
-                                      'facts': sorted('%s %s %s [%s]' % ft for ft in st if ft[0] == ip)[:6]})
+                # the position may be held by the parameter itself or by a local computed from it
+                cands = [ip] + [x.get('name') for x in walk(f.body) if x.get('kind') == 'VarDecl' and var_init(x) is not None
+                                and any(y.get('kind') == 'DeclRefExpr' and (y.get('referencedDecl') or {}).get('name') == ip
+                                        for y in walk(var_init(x)))]
+                ok = False
+                upper = lower = False
+                for v in cands:
+                    up = [ft for ft in st if ft[0] == v and ft[1] == '<' and (ft[2].endswith('->num') or ft[2] in numalias)]
+                    lo = any(ft[3] == 'u' for ft in up) or any(
+                        ft[0] == v and ((ft[1] == '>=' and ft[2] == '0') or (ft[1] == '>' and ft[2] == '-1')) for ft in st)
+                    upper = upper or bool(up)
+                    lower = lower or (bool(up) and lo)
+                    if up and lo:
+                        ok = True
+                rep.oblige('E5', ok, {'function': f.name, 'line': starts[0].get('_line'), 'index': ip, 'position_candidates': cands,
+                                      'facts': sorted('%s %s %s [%s]' % ft for ft in st if ft[0] in cands)[:6]})
                 if not ok:
                     why = []
                     if not upper:
